@@ -57,13 +57,14 @@ def constant_measurement(value=1.0):
     return float(value)
 
 
-def m_late(results, psi, model, simulation, results_key='late_value'):
+def m_late(results, psi, model, simulation, results_key='late_value', onset=1):
     """Measurement function whose key only appears from the second measurement on: tenpy then fills the
     earlier entries with None, so the list cannot become a numpy array and stays a list in the checkpoints."""
     previous = simulation.results.get('measurements', None)
     if previous:
         n = len(next(iter(previous.values())))
-        results[results_key] = float(n) + float(abs(psi.overlap(psi)))
+        if n >= onset:  # the key first appears at measurement number `onset` (counted from 0)
+            results[results_key] = float(n) + float(abs(psi.overlap(psi)))
 
 
 def m_trunc_err(results, psi, model, simulation, results_key='trunc_err'):
